@@ -19,7 +19,7 @@ func init() {
 		Patterns: []string{"./cache"},
 		Run:      runC19,
 		Explanation: "Decides structural necessary conditions of 'cache wrappers never return wrong, deleted or expired data; placement is stable' for every type of package cache that implements Cache and wraps an inner Cache: (R1) each method forwards only to the same-named method of the inner cache; (R2) key/value transforms are uniform: the versioned wrapper passes every key through addVersion on the way in and removeVersion on the way out, with a '%d'+non-digit prefix; the compressing wrapper hands the inner cache a freshly allocated snappy encoding (dst nil) of the caller's value and returns only successfully decoded values; " +
-			"(R3) the LRU layer: lock discipline on the LRU, a local entry is returned only if not expired and expired ones are removed, write-through before the local insert, Add inserts locally only on success, back-fill uses now+defaultTTL, Delete removes locally before the backend; (R4) memcached placement: the server list is assigned only from ResolveServers of a natural-sorted copy, PickServer indexes it with jumpHash(xxhash(key), len) under the lock, jumpHash's cone has no nondeterministic source. NOT decided: equivalence with a map-with-expiry model over operation sequences; jump-hash's monotonicity.",
+			"(R3) the LRU layer: lock discipline on the LRU, a local entry is returned only if not expired and expired ones are removed, write-through before the local insert, Add inserts locally only on success, back-fill uses now+defaultTTL, Delete removes locally before the backend; (R4) memcached placement: the server list is assigned only from ResolveServers of a natural-sorted copy, PickServer indexes it with jumpHash(xxhash(key), len) under the lock, jumpHash's cone has no nondeterministic source. Also: (R5) wrappers never short-circuit a mutation: the inner same-named call is on every path. NOT decided: equivalence with a map-with-expiry model over operation sequences; jump-hash's monotonicity.",
 	}
 }
 
